@@ -6306,7 +6306,7 @@ impl RelationalEngine {
             },
 
             Condition::Eq(col, Value::Int(val)) => {
-                let (values, alive_words, _null_words) =
+                let (values, alive_words, null_words) =
                     self.slab().get_int_column(table, col).ok()?;
                 let row_count = values.len();
                 if row_count == 0 {
@@ -6314,13 +6314,14 @@ impl RelationalEngine {
                 }
                 let mut bitmap = vec![0u64; simd::bitmap_words(row_count)];
                 simd::filter_eq_i64(&values, *val, &mut bitmap);
+                Self::apply_null_mask(&mut bitmap, &null_words, false);
                 // AND with alive bitmap to exclude deleted rows
                 Self::apply_alive_mask(&mut bitmap, &alive_words);
                 Some((SelectionVector::from_bitmap(bitmap, row_count), row_count))
             },
 
             Condition::Ne(col, Value::Int(val)) => {
-                let (values, alive_words, _null_words) =
+                let (values, alive_words, null_words) =
                     self.slab().get_int_column(table, col).ok()?;
                 let row_count = values.len();
                 if row_count == 0 {
@@ -6328,12 +6329,13 @@ impl RelationalEngine {
                 }
                 let mut bitmap = vec![0u64; simd::bitmap_words(row_count)];
                 simd::filter_ne_i64(&values, *val, &mut bitmap);
+                Self::apply_null_mask(&mut bitmap, &null_words, true);
                 Self::apply_alive_mask(&mut bitmap, &alive_words);
                 Some((SelectionVector::from_bitmap(bitmap, row_count), row_count))
             },
 
             Condition::Lt(col, Value::Int(val)) => {
-                let (values, alive_words, _null_words) =
+                let (values, alive_words, null_words) =
                     self.slab().get_int_column(table, col).ok()?;
                 let row_count = values.len();
                 if row_count == 0 {
@@ -6341,12 +6343,13 @@ impl RelationalEngine {
                 }
                 let mut bitmap = vec![0u64; simd::bitmap_words(row_count)];
                 simd::filter_lt_i64(&values, *val, &mut bitmap);
+                Self::apply_null_mask(&mut bitmap, &null_words, false);
                 Self::apply_alive_mask(&mut bitmap, &alive_words);
                 Some((SelectionVector::from_bitmap(bitmap, row_count), row_count))
             },
 
             Condition::Le(col, Value::Int(val)) => {
-                let (values, alive_words, _null_words) =
+                let (values, alive_words, null_words) =
                     self.slab().get_int_column(table, col).ok()?;
                 let row_count = values.len();
                 if row_count == 0 {
@@ -6354,12 +6357,13 @@ impl RelationalEngine {
                 }
                 let mut bitmap = vec![0u64; simd::bitmap_words(row_count)];
                 simd::filter_le_i64(&values, *val, &mut bitmap);
+                Self::apply_null_mask(&mut bitmap, &null_words, false);
                 Self::apply_alive_mask(&mut bitmap, &alive_words);
                 Some((SelectionVector::from_bitmap(bitmap, row_count), row_count))
             },
 
             Condition::Gt(col, Value::Int(val)) => {
-                let (values, alive_words, _null_words) =
+                let (values, alive_words, null_words) =
                     self.slab().get_int_column(table, col).ok()?;
                 let row_count = values.len();
                 if row_count == 0 {
@@ -6367,12 +6371,13 @@ impl RelationalEngine {
                 }
                 let mut bitmap = vec![0u64; simd::bitmap_words(row_count)];
                 simd::filter_gt_i64(&values, *val, &mut bitmap);
+                Self::apply_null_mask(&mut bitmap, &null_words, false);
                 Self::apply_alive_mask(&mut bitmap, &alive_words);
                 Some((SelectionVector::from_bitmap(bitmap, row_count), row_count))
             },
 
             Condition::Ge(col, Value::Int(val)) => {
-                let (values, alive_words, _null_words) =
+                let (values, alive_words, null_words) =
                     self.slab().get_int_column(table, col).ok()?;
                 let row_count = values.len();
                 if row_count == 0 {
@@ -6380,12 +6385,13 @@ impl RelationalEngine {
                 }
                 let mut bitmap = vec![0u64; simd::bitmap_words(row_count)];
                 simd::filter_ge_i64(&values, *val, &mut bitmap);
+                Self::apply_null_mask(&mut bitmap, &null_words, false);
                 Self::apply_alive_mask(&mut bitmap, &alive_words);
                 Some((SelectionVector::from_bitmap(bitmap, row_count), row_count))
             },
 
             Condition::Lt(col, Value::Float(val)) => {
-                let (values, alive_words, _null_words) =
+                let (values, alive_words, null_words) =
                     self.slab().get_float_column(table, col).ok()?;
                 let row_count = values.len();
                 if row_count == 0 {
@@ -6393,12 +6399,13 @@ impl RelationalEngine {
                 }
                 let mut bitmap = vec![0u64; simd::bitmap_words(row_count)];
                 simd::filter_lt_f64(&values, *val, &mut bitmap);
+                Self::apply_null_mask(&mut bitmap, &null_words, false);
                 Self::apply_alive_mask(&mut bitmap, &alive_words);
                 Some((SelectionVector::from_bitmap(bitmap, row_count), row_count))
             },
 
             Condition::Gt(col, Value::Float(val)) => {
-                let (values, alive_words, _null_words) =
+                let (values, alive_words, null_words) =
                     self.slab().get_float_column(table, col).ok()?;
                 let row_count = values.len();
                 if row_count == 0 {
@@ -6406,12 +6413,13 @@ impl RelationalEngine {
                 }
                 let mut bitmap = vec![0u64; simd::bitmap_words(row_count)];
                 simd::filter_gt_f64(&values, *val, &mut bitmap);
+                Self::apply_null_mask(&mut bitmap, &null_words, false);
                 Self::apply_alive_mask(&mut bitmap, &alive_words);
                 Some((SelectionVector::from_bitmap(bitmap, row_count), row_count))
             },
 
             Condition::Eq(col, Value::Float(val)) => {
-                let (values, alive_words, _null_words) =
+                let (values, alive_words, null_words) =
                     self.slab().get_float_column(table, col).ok()?;
                 let row_count = values.len();
                 if row_count == 0 {
@@ -6419,6 +6427,7 @@ impl RelationalEngine {
                 }
                 let mut bitmap = vec![0u64; simd::bitmap_words(row_count)];
                 simd::filter_eq_f64(&values, *val, &mut bitmap);
+                Self::apply_null_mask(&mut bitmap, &null_words, false);
                 Self::apply_alive_mask(&mut bitmap, &alive_words);
                 Some((SelectionVector::from_bitmap(bitmap, row_count), row_count))
             },
@@ -6437,6 +6446,19 @@ impl RelationalEngine {
 
             // Unsupported conditions - fall back to legacy path
             _ => None,
+        }
+    }
+
+    /// Apply the column's null bitmap: a NULL never satisfies a comparison except `Ne`
+    /// (`Condition::evaluate` treats `NULL != value` as true).
+    fn apply_null_mask(bitmap: &mut [u64], null_words: &[u64], select_nulls: bool) {
+        for (i, word) in bitmap.iter_mut().enumerate() {
+            let nulls = null_words.get(i).copied().unwrap_or(0);
+            if select_nulls {
+                *word |= nulls;
+            } else {
+                *word &= !nulls;
+            }
         }
     }
 
